@@ -255,8 +255,12 @@ class Ctx:
         """Run lines on model and implementation, record disagreements.
         `nontrivial(line, result)` says whether a case counts as non-trivial."""
         lines = list(dict.fromkeys(lines))
+        _t = time.time()
         m = model_eval(lines)
+        _tm = time.time() - _t
         r = impl_eval(lines)
+        if os.environ.get("VERIF_TIMING"):
+            print(f"  [timing] {label}: {len(lines)} lines, model {_tm:.1f}s, impl {time.time() - _t - _tm:.1f}s", flush=True)
         for line, a, b in zip(lines, m, r):
             self.evaluations += 1
             cls = b.split(" ", 2)[0] + ((" " + b.split(" ", 2)[1]) if b.startswith("err ") else "")
@@ -276,7 +280,10 @@ class Ctx:
     def check_props(self, lines, label, stop_after=20):
         """`prop.*` ops: property evaluated directly on the real code"""
         lines = list(dict.fromkeys(lines))
+        _t = time.time()
         r = impl_eval(lines)
+        if os.environ.get("VERIF_TIMING"):
+            print(f"  [timing] {label}: {len(lines)} prop lines, impl {time.time() - _t:.1f}s", flush=True)
         for line, b in zip(lines, r):
             self.evaluations += 1
             self.count(f"{label}:{b.split(' ', 1)[0]}")
